@@ -26,3 +26,20 @@ def sig_text(key):
     if not sig:
         return name
     return name + "(" + ", ".join(f"{p}={'?' if v == '?' else repr(v[1])}" for p, v in sig) + ")"
+
+
+def token_sites():
+    """(line, col) of a token-helper call in a production -> union of the token-type sets it can consume (over all clones)."""
+    if "toksites" not in _cache:
+        ex, g = get()
+        out = {}
+        for key, prod in ex.prods.items():
+            live, _ = g.pa[key].live_nodes()
+            for e in prod.edges:
+                if e.dst not in live:
+                    continue     # only tokens consumed on a path that can still succeed
+                for ev in e.events:
+                    if ev[0] == "consume" and len(ev) > 3 and isinstance(ev[3], tuple):
+                        out.setdefault(ev[3], set()).update(ev[1])
+        _cache["toksites"] = out
+    return _cache["toksites"]
